@@ -53,6 +53,9 @@ func (t *T0x0102) Parse(jtMsg *jt808.JTMessage) error {
 		}
 		t.SoftwareVersion = string(data)
 	} else {
+		t.AuthCodeLen = 0
+		t.TerminalIMEI = ""
+		t.SoftwareVersion = ""
 		t.AuthCode = string(body)
 	}
 	return nil
